@@ -54,19 +54,29 @@ Proof.
     + destruct (N.eqb_spec r0 r); [congruence|]. lia.
 Qed.
 
+(** instances whose classes have no [All] entry (the gap of a blocker with an [All] entry is 0 by definition) *)
+Definition no_all (I : inst) : Prop := forall rq, rc_all (class_of I rq) = [].
+
+Lemma rv_remove_cls_noall : forall v c n, rc_all c = [] -> rv_remove_cls v c n = rv_remove_multiple v (rc_entries c) n.
+Proof. intros v c n H. unfold rv_remove_cls. rewrite H. reflexivity. Qed.
+
+Lemma tmc_cls_noall : forall v c, rc_all c = [] -> task_max_count_cls v c = task_max_count v (rc_entries c).
+Proof. intros v c H. unfold task_max_count_cls, task_max_count. rewrite H. simpl. rewrite app_nil_r. reflexivity. Qed.
+
 (** demand of the assigned tasks that are not of class [h] *)
 Definition demand_except (I : inst) (assigned : list N) (h r : N) : N :=
   fold_right (fun rq acc => (if rq =? h then 0 else amount (req_of I rq) r) + acc) 0 assigned.
 
-Lemma remove_assigned_get : forall I assigned free h f', remove_assigned I free assigned h = Ok f' ->
+Lemma remove_assigned_get : forall I assigned free h f', no_all I -> remove_assigned I free assigned h = Ok f' ->
   forall r, rv_get f' r = rv_get free r - demand_except I assigned h r.
 Proof.
-  induction assigned as [|rq t IH]; intros free h f' H r; simpl in H.
+  induction assigned as [|rq t IH]; intros free h f' Hna H r; simpl in H.
   - inversion H; subst. unfold demand_except. simpl. lia.
   - unfold demand_except. simpl. fold (demand_except I t h r). destruct (rq =? h).
-    + rewrite (IH _ _ _ H r). lia.
-    + destruct (rv_remove_multiple free (req_of I rq) 1) as [f1| |] eqn:E; simpl in H; try discriminate.
-      rewrite (IH _ _ _ H r), (rv_remove_multiple_get _ _ _ _ E r). lia.
+    + rewrite (IH _ _ _ Hna H r). lia.
+    + rewrite (rv_remove_cls_noall _ _ _ (Hna rq)) in H. fold (req_of I rq) in H.
+      destruct (rv_remove_multiple free (req_of I rq) 1) as [f1| |] eqn:E; simpl in H; try discriminate.
+      rewrite (IH _ _ _ Hna H r), (rv_remove_multiple_get _ _ _ _ E r). lia.
 Qed.
 
 Definition count_class (assigned : list N) (h : N) : N := nlen (filter (fun rq => rq =? h) assigned).
@@ -158,6 +168,7 @@ Qed.
 
 
 Theorem gap_leaves_room : forall I w h G,
+  no_all I ->
   gap_resources I w h = Ok G ->
   request_wf (req_of I h) -> request_nodup (req_of I h) ->
   (exists e, In e (req_of I h) /\ rv_get (w_res w) (fst e) / snd e < SCHED_MAX_TASK_PER_WORKER) ->
@@ -166,11 +177,12 @@ Theorem gap_leaves_room : forall I w h G,
   forall k, k <= task_max_count (w_free w) (req_of I h) ->
   forall r, k * amount (req_of I h) r + U r <= rv_get (w_free w) r.
 Proof.
-  intros I w h G HG Hwf Hnd (e0 & He0 & Hsmall) Hacc U HU k Hk r.
-  unfold gap_resources in HG.
+  intros I w h G Hna HG Hwf Hnd (e0 & He0 & Hsmall) Hacc U HU k Hk r.
+  unfold gap_resources in HG. cbv zeta in HG.
+  rewrite (rv_remove_cls_noall _ _ _ (Hna h)), (tmc_cls_noall _ _ (Hna h)) in HG. fold (req_of I h) in HG.
   destruct (rv_remove_multiple (w_res w) (req_of I h) (task_max_count (w_res w) (req_of I h))) as [f1| |] eqn:E1;
     simpl in HG; try discriminate.
-  pose proof (remove_assigned_get _ _ _ _ _ HG r) as HGr.
+  pose proof (remove_assigned_get _ _ _ _ _ Hna HG r) as HGr.
   rewrite (rv_remove_multiple_get _ _ _ _ E1 r) in HGr.
   set (m := task_max_count (w_res w) (req_of I h)) in *.
   set (nh := count_class (w_assigned w) h).
